@@ -329,6 +329,9 @@ class ECDSAKey(PKey):
         else:
             self._got_bad_key_format_id(pkformat)
 
+        if not isinstance(key, ec.EllipticCurvePrivateKey):
+            # a well-formed key of another type inside an EC key block
+            raise SSHException("Not an ECDSA private key")
         self.signing_key = key
         self.verifying_key = key.public_key()
         curve_class = key.curve.__class__
